@@ -48,6 +48,16 @@ def file_names(sc, nfiles):
     return [f"f_{n:02d}.nc" for n in range(nfiles)]
 
 
+def geo_tables(sc):
+    """lon / lat node tables in degrees for sc["geo"] = (a, b, c, d, e): a sheared, slightly curved grid (same family as C16's)"""
+    import numpy as np
+    a, b, c, d, e = sc["geo"]
+    jm, im = sc["jmax"], sc["imax"]
+    lon = [[a * i + b * j + (e * i * j) // 2 + (i * i) // 3 for i in range(im)] for j in range(jm)]
+    latt = [[c * j + d * i - (e * i * j) // 3 + (j * j) // 4 for i in range(im)] for j in range(jm)]
+    return 5.0 + np.array(lon) / 1024.0, 60.0 + np.array(latt) / 1024.0
+
+
 def _rect(sc):
     """the loaded rectangle [i0, i1, j0, j1] of rho cells (limits counted from the upper end resolved)"""
     sub = sc.get("subgrid") or [1, sc["imax"] - 1, 1, sc["jmax"] - 1]
@@ -76,7 +86,8 @@ def write_files(sc, work):
             kk, jj, ii = _np.meshgrid(_np.arange(N + 1), _np.arange(jmax), _np.arange(imax), indexing="ij")
             W = _np.stack([((f + kk + ii + 2 * jj) % 5 - 2) / 64.0 for f in fnum[a:b]])
         name = os.path.join(work, fnames[n])
-        make_roms(name, imax=imax, jmax=jmax, N=N, times=sc["ftimes"][a:b], mask=np.array(sc["M"], float),
+        glon, glat = geo_tables(sc) if sc.get("geo") else (None, None)
+        make_roms(name, imax=imax, jmax=jmax, N=N, times=sc["ftimes"][a:b], mask=np.array(sc["M"], float), lon=glon, lat=glat,
                   # land fill: ROMS' own fill value 1e37, or nan as other tools write it
                   h=np.array(sc["H"], float), hc=0.0, landfill=(((1.0e37 if sc["fm"].get("c", 0) % 4 == 1 else float("nan")), _rect(sc)) if sc["fm"].get("c", 0) % 2 else None), Cs_r=np.array([num / den for num, den in cs_of(sc)]),
                   dx=(np.array(sc["dxarr"], float) if sc.get("dxarr") else sc.get("dx", 128.0) * (2.0 if (n > 0 and sc.get("grid_variant_in_later_files")) else 1.0)),
